@@ -36,6 +36,10 @@ def units(tier, seed, only=None):
                           'invariants': 'n == ex->n && ' + INV('((unsigned char *)ex->arrays[0])[__gk]', '(unsigned char)ex->params[24]'),
                           'assigns': 'AUTO_LOCALS, __CPROVER_object_upto(ex->arrays[0], (unsigned long)n)', 'decreases': 'n - i'}]),
     ]
+    B = 'n <= 3, loops fully unwound (companion of the unbounded loop-contract unit)'
+    for name, h, fn, d in (('orc_memcpy[DISABLE_ORC]:small', 'h_memcpy', 'orc_memcpy', ['DISABLE_ORC']), ('orc_memset[DISABLE_ORC]:small', 'h_memset', 'orc_memset', ['DISABLE_ORC']),
+                           ('_backup_orc_memcpy:small', 'h_backup_memcpy', '_backup_orc_memcpy', []), ('_backup_orc_memset:small', 'h_backup_memset', '_backup_orc_memset', [])):
+        us.append(core.Unit(name, SRC, h, enforce=fn, defines=d + ['SMALL_N=1'], unwind=6, bounded=B))
     if only:
         us = [u for u in us if re.search(only, u.name)]
     return us
